@@ -13,7 +13,15 @@ def cms_str():
     rng = random.Random(5)
     for _ in range(400):
         c.add(f"user-{int(rng.paretovariate(1.2)) % 41}")
-    return {"est": [c.estimate(f"user-{i}") for i in range(41)]}
+    # composite keys (tuples and enums of strings; sets are left out: their repr order is hash-seed dependent) as a metrics pipeline would use them
+    import enum
+    Kind = enum.Enum("Kind", "GET PUT")
+    c2 = CountMinSketch(width=8, depth=2, seed=2)
+    keys = [(f"tenant-{i % 5}", f"/api/{i % 7}") for i in range(35)] \
+        + [(Kind.GET, i) for i in range(3)]
+    for _ in range(300):
+        c2.add(keys[int(rng.paretovariate(1.1)) % len(keys)])
+    return {"est": [c.estimate(f"user-{i}") for i in range(41)], "est2": [c2.estimate(k) for k in keys]}
 
 
 def sketches_str():
@@ -33,18 +41,23 @@ def sketches_str():
             "topk": [[str(i.item), i.count] for i in t.top()] if hasattr(t, "top") else []}
 
 
-def poisson_queue():
+def poisson_queue(rate=30, seed_offset=0):
     from happysimulator import Instant, Simulation, Sink, Source
     from happysimulator.components.server import Server
     from happysimulator.distributions import ExponentialLatency
-    random.seed(77)
+    random.seed(77 + seed_offset)
+    try:
+        import numpy as np
+        np.random.seed(77 + seed_offset)
+    except Exception:
+        pass
     sink = Sink("sink")
     try:
         svc = ExponentialLatency(0.05, seed=9)
     except TypeError:
         svc = ExponentialLatency(0.05)
     srv = Server("srv", concurrency=2, service_time=svc, downstream=sink)
-    src = Source.poisson(rate=30, target=srv, stop_after=3.0)
+    src = Source.poisson(rate=rate, target=srv, stop_after=3.0)
     sim = Simulation(sources=[src], entities=[srv, sink], end_time=Instant.from_seconds(5))
     sim.run()
     return {"n": getattr(sink, "events_received", None)}
